@@ -148,54 +148,39 @@ Proof.
   rewrite (crop_and_pad_shape _ _ _ _ _ _ _ _ _ _ _ A), (crop_and_pad_shape _ _ _ _ _ _ _ _ _ _ _ B). reflexivity.
 Qed.
 
-(* ---- CropAndPad._prevent_zero (generated): crop amounts that would remove a whole axis are cut back.  For
-        non-negative amounts whose sum on an axis is at most twice the extent (every percent in (-1, 0] and every px
-        up to the extent per side) the result is non-negative, not larger than requested in total, and leaves at
-        least one voxel on every axis ---- *)
+(* ---- CropAndPad._prevent_zero (generated): crop amounts that would remove a whole axis are cut back by exactly
+        |remaining| + 1 voxels.  For all non-negative amounts the result is non-negative, not larger than requested,
+        leaves at least one voxel on every axis (exactly one where the request left none), and is the request itself
+        wherever that already leaves a voxel ---- *)
 Lemma priv_prevent_zero_spec pc pcm px v1 v2 m :
-  0 <= v1 -> 0 <= v2 -> 1 <= m -> m <= v1 + v2 <= 2 * m ->
+  0 <= v1 -> 0 <= v2 -> m <= 0 -> 1 - m <= v1 + v2 ->
   let '(a, b) := CropAndPadS_priv_prevent_zero pc pcm px v1 v2 m in
-  a <= v1 /\ b <= v2 /\ a + b = v1 + v2 - (m + 1) /\ (a < 0 -> b <= m - 1) /\ (b < 0 -> a <= m - 1) /\ -1 <= a /\ -1 <= b.
+  0 <= a <= v1 /\ 0 <= b <= v2 /\ a + b = v1 + v2 - (1 - m).
 Proof.
   intros P1 P2 Pm S. unfold CropAndPadS_priv_prevent_zero. cbv zeta.
-  rewrite (Z.abs_eq m) by lia.
-  destruct (Z.ltb_spec (((m + 1) / 2) + ((m + 1) / 2)) (m + 1)) as [A|A];
-  destruct (Z.gtb_spec ((m + 1) / 2 + 1) v1) as [B|B]; destruct (Z.gtb_spec ((m + 1) / 2) v1) as [B'|B'];
-  destruct (Z.gtb_spec ((m + 1) / 2) v2) as [C|C]; cbn [fst snd]; repeat split; lia.
+  rewrite (Z.abs_neq m) by lia.
+  destruct (Z.ltb_spec (((- m + 1) / 2) + ((- m + 1) / 2)) (- m + 1)) as [A|A];
+  destruct (Z.gtb_spec ((- m + 1) / 2 + 1) v1) as [B|B]; destruct (Z.gtb_spec ((- m + 1) / 2) v1) as [B'|B'];
+  destruct (Z.gtb_spec ((- m + 1) / 2) v2) as [C|C]; cbn [fst snd]; repeat split; lia.
 Qed.
 
 Theorem prevent_zero_leaves_a_voxel pc pcm px t b l r c f H W D :
   0 <= t -> 0 <= b -> 0 <= l -> 0 <= r -> 0 <= c -> 0 <= f -> 1 <= H -> 1 <= W -> 1 <= D ->
-  t + b <= 2 * H -> l + r <= 2 * W -> c + f <= 2 * D ->
   let '(t', b', l', r', c', f') := CropAndPadS_prevent_zero pc pcm px (t, b, l, r, c, f) H W D in
   0 <= t' <= t /\ 0 <= b' <= b /\ 0 <= l' <= l /\ 0 <= r' <= r /\ 0 <= c' <= c /\ 0 <= f' <= f /\
   1 <= H - (t' + b') /\ 1 <= W - (l' + r') /\ 1 <= D - (c' + f') /\
-  (1 <= H - (t + b) -> t' = t /\ b' = b) /\ (1 <= W - (l + r) -> l' = l /\ r' = r) /\ (1 <= D - (c + f) -> c' = c /\ f' = f).
+  (1 <= H - (t + b) -> t' = t /\ b' = b) /\ (1 <= W - (l + r) -> l' = l /\ r' = r) /\ (1 <= D - (c + f) -> c' = c /\ f' = f) /\
+  (H - (t + b) < 1 -> H - (t' + b') = 1) /\ (W - (l + r) < 1 -> W - (l' + r') = 1) /\ (D - (c + f) < 1 -> D - (c' + f') = 1).
 Proof.
   intros. unfold CropAndPadS_prevent_zero. cbv zeta.
-  destruct (Z.ltb_spec (H - (t + b)) 1) as [A|A].
-  - pose proof (priv_prevent_zero_spec pc pcm px t b H) as S1.
-    destruct (CropAndPadS_priv_prevent_zero pc pcm px t b H) as [t1 b1].
-    destruct (Z.ltb_spec (W - (l + r)) 1) as [B|B].
-    + pose proof (priv_prevent_zero_spec pc pcm px l r W) as S2.
-      destruct (CropAndPadS_priv_prevent_zero pc pcm px l r W) as [l1 r1].
-      destruct (Z.ltb_spec (D - (c + f)) 1) as [C|C].
-      * pose proof (priv_prevent_zero_spec pc pcm px c f D) as S3.
-        destruct (CropAndPadS_priv_prevent_zero pc pcm px c f D) as [c1 f1]. lia.
-      * lia.
-    + destruct (Z.ltb_spec (D - (c + f)) 1) as [C|C].
-      * pose proof (priv_prevent_zero_spec pc pcm px c f D) as S3.
-        destruct (CropAndPadS_priv_prevent_zero pc pcm px c f D) as [c1 f1]. lia.
-      * lia.
-  - destruct (Z.ltb_spec (W - (l + r)) 1) as [B|B].
-    + pose proof (priv_prevent_zero_spec pc pcm px l r W) as S2.
-      destruct (CropAndPadS_priv_prevent_zero pc pcm px l r W) as [l1 r1].
-      destruct (Z.ltb_spec (D - (c + f)) 1) as [C|C].
-      * pose proof (priv_prevent_zero_spec pc pcm px c f D) as S3.
-        destruct (CropAndPadS_priv_prevent_zero pc pcm px c f D) as [c1 f1]. lia.
-      * lia.
-    + destruct (Z.ltb_spec (D - (c + f)) 1) as [C|C].
-      * pose proof (priv_prevent_zero_spec pc pcm px c f D) as S3.
-        destruct (CropAndPadS_priv_prevent_zero pc pcm px c f D) as [c1 f1]. lia.
-      * lia.
+  destruct (Z.ltb_spec (H - (t + b)) 1) as [A|A];
+  [pose proof (priv_prevent_zero_spec pc pcm px t b (H - (t + b))) as S1;
+   destruct (CropAndPadS_priv_prevent_zero pc pcm px t b (H - (t + b))) as [t1 b1]|];
+  (destruct (Z.ltb_spec (W - (l + r)) 1) as [B|B];
+   [pose proof (priv_prevent_zero_spec pc pcm px l r (W - (l + r))) as S2;
+    destruct (CropAndPadS_priv_prevent_zero pc pcm px l r (W - (l + r))) as [l1 r1]|]);
+  (destruct (Z.ltb_spec (D - (c + f)) 1) as [C|C];
+   [pose proof (priv_prevent_zero_spec pc pcm px c f (D - (c + f))) as S3;
+    destruct (CropAndPadS_priv_prevent_zero pc pcm px c f (D - (c + f))) as [c1 f1]|]);
+  lia.
 Qed.
